@@ -166,11 +166,19 @@ pub fn worker(prop: &str, seed: u64, tier: &str, from: u64, to: u64, stride: u64
                 Verdict::Violation { class, detail } => format!("viol:{}:{}", class, detail),
             };
             let mut h = crate::rng::hash_bytes(v.as_bytes());
+            if !rep.stats.uncontrolled {
             h = crate::rng::mix(h, rep.stats.trace_hash);
             h = crate::rng::mix(h, rep.stats.steps);
             h = crate::rng::mix(h, rep.stats.sink_ops);
             h = crate::rng::mix(h, rep.stats.outcome_hash);
-            h = crate::rng::mix(h, crate::rng::hash_bytes(format!("{:?}{:?}{:?}", rep.stats.faults, rep.stats.probes, rep.stats.counters).as_bytes()));
+            h = crate::rng::mix(h, crate::rng::hash_bytes(format!(
+                "{:?}{:?}{:?}",
+                rep.stats.faults,
+                rep.stats.probes,
+                rep.stats.counters.iter().filter(|(k, _)| !k.starts_with("uncontrolled")).collect::<Vec<_>>()
+            ).as_bytes()));
+            }
+            h = crate::rng::mix(h, rep.stats.outcome_hash);
             h = crate::rng::mix(h, props::case_hash(&case));
             let mut o = stdout.lock();
             let _ = writeln!(o, "T {} {:016x}", idx, h);
@@ -379,6 +387,12 @@ pub fn check(opts: &CheckOpts) -> i32 {
         "check property={} tier={} VERIF_SEED={} runs={} workers={}",
         prop, opts.tier, opts.seed, total, nworkers
     );
+    let mut determinism_mismatches: Option<u64> = None;
+    let mut determinism_runs = 0u64;
+    if opts.tier == "thorough" {
+        determinism_runs = 240;
+        determinism_mismatches = determinism_count(prop, opts.seed, determinism_runs);
+    }
     let exe = std::env::current_exe().expect("current_exe");
     let (tx, rx) = mpsc::channel::<Ev>();
     let mut children: Vec<Option<Child>> = vec![];
@@ -534,6 +548,9 @@ pub fn check(opts: &CheckOpts) -> i32 {
         }
     }
 
+    if opts.tier == "thorough" && determinism_mismatches != Some(0) {
+        harness_errors.push(format!("determinism self-test: {:?} mismatching runs of {}", determinism_mismatches, determinism_runs));
+    }
     for (k, n) in &agg.skip_reasons {
         if k.starts_with("HARNESS") {
             harness_errors.push(format!("{} ({} runs)", k, n));
@@ -583,6 +600,7 @@ pub fn check(opts: &CheckOpts) -> i32 {
             "components_real": spec.real,
             "components_stub": spec.stub,
             "schedule_controlled": true,
+            "determinism_selftest": {"runs": determinism_runs, "executions": if determinism_runs > 0 { 3 } else { 0 }, "mismatches": determinism_mismatches},
             "known_findings_seen": known_seen,
             "harness_errors": harness_errors,
         },
@@ -654,6 +672,14 @@ pub fn replay(path: &str, mem_cap: u64) -> i32 {
 /// worker counts, must give identical per-run outcome hashes (workload, schedule trace, sink image,
 /// fault/probe counters, verdict).
 pub fn determinism(prop: &str, seed: u64, runs: u64) -> i32 {
+    match determinism_count(prop, seed, runs) {
+        Some(0) => 0,
+        _ => 2,
+    }
+}
+
+/// Returns the number of mismatching runs (None = harness trouble).
+pub fn determinism_count(prop: &str, seed: u64, runs: u64) -> Option<u64> {
     let exe = std::env::current_exe().expect("current_exe");
     let collect = |workers: u64| -> Result<BTreeMap<u64, String>, String> {
         let mut children = vec![];
@@ -697,14 +723,14 @@ pub fn determinism(prop: &str, seed: u64, runs: u64) -> i32 {
         Ok(m) => m,
         Err(e) => {
             println!("HARNESS-ERROR: {}", e);
-            return 2;
+            return None;
         }
     };
     let b = match collect(16) {
         Ok(m) => m,
         Err(e) => {
             println!("HARNESS-ERROR: {}", e);
-            return 2;
+            return None;
         }
     };
     let c = collect(5).unwrap_or_default();
@@ -724,13 +750,9 @@ pub fn determinism(prop: &str, seed: u64, runs: u64) -> i32 {
         a.len(),
         mismatches
     );
-    if a.len() as u64 != runs.min(a.len() as u64).max(1) && a.is_empty() {
+    if a.is_empty() {
         println!("HARNESS-ERROR: no outcomes collected");
-        return 2;
+        return None;
     }
-    if mismatches > 0 {
-        2
-    } else {
-        0
-    }
+    Some(mismatches)
 }
